@@ -88,7 +88,7 @@ const (
 var verifC07Cfg = &vs.C07Cfg{
 	Shared: &vs.Cfg{Session: 3, Catalog: 36, Dereg: 22, Txn: 12, Config: 14, Coord: 5, SysMeta: 1, Killer: 3,
 		TxnCatalog: true, Peers: true, Connect: true, Rename: true, SessionChecks: true, MaxTxnOps: 4},
-	SharedW: 46, ProxyW: 12, LastW: 14, GatewayW: 11, RenameW: 6, PeerW: 6, DestW: 5,
+	SharedW: 46, ProxyW: 12, LastW: 14, GatewayW: 11, RenameW: 6, PeerW: 6, DestW: 5, MultiGwW: 4,
 }
 
 type verifC07Machine struct {
@@ -230,6 +230,55 @@ func (m *verifC07Machine) classify(prev, cur *verifC07View, op *vs.Op, res vs.Re
 		if prevLinked[name] {
 			c.Label("last-instance-removed/gateway-link")
 			c.NonTrivial()
+		}
+	}
+	// a service linked by several gateways (one of them terminating, with an instance advertising the service's
+	// virtual IP) loses its last instance / its last VIP-holding config entry
+	if prev.flags[structs.SystemMetadataVirtualIPsEnabled] && prev.flags[structs.SystemMetadataTermGatewayVirtualIPsEnabled] {
+		advertised := map[string]bool{}
+		for _, sn := range prev.services {
+			if verifC07IsLocal(sn) && sn.ServiceKind == structs.ServiceKindTerminatingGateway {
+				for tag := range sn.ServiceTaggedAddresses {
+					if strings.HasPrefix(tag, structs.TaggedAddressVirtualIP+":") {
+						advertised[sn.ServiceName+"|"+strings.TrimPrefix(tag, structs.TaggedAddressVirtualIP+":")] = true
+					}
+				}
+			}
+		}
+		gwsOf := map[string]map[string]bool{}
+		termOf := map[string]string{}
+		for _, g := range prev.gw {
+			if gwsOf[g.service] == nil {
+				gwsOf[g.service] = map[string]bool{}
+			}
+			gwsOf[g.service][g.gateway] = true
+			if g.gwKind == string(structs.ServiceKindTerminatingGateway) && advertised[g.gateway+"|"+g.service] {
+				termOf[g.service] = g.gateway
+			}
+		}
+		vipKinds := []string{structs.ServiceResolver, structs.ServiceRouter, structs.ServiceSplitter, structs.ServiceDefaults, structs.ServiceIntentions}
+		holders := func(v *verifC07View, name string) int {
+			n := 0
+			for _, k := range vipKinds {
+				if v.cfgNames[k+"|"+name] {
+					n++
+				}
+			}
+			return n
+		}
+		for _, name := range verifC07SortedKeys(termOf) {
+			if len(gwsOf[name]) < 2 {
+				continue
+			}
+			c.Label("service-linked-by-several-gateways")
+			if pp.count[name] > 0 && cp.count[name] == 0 {
+				c.Label("service-linked-by-several-gateways-loses-last-instance")
+				c.NonTrivial()
+			}
+			if holders(prev, name) > 0 && holders(cur, name) == 0 {
+				c.Label("service-linked-by-several-gateways-loses-last-config-entry")
+				c.NonTrivial()
+			}
 		}
 	}
 	// proxy removed after its service
@@ -779,10 +828,13 @@ func (m *verifC07Machine) checkVIPs(prev, cur *verifC07View, op *vs.Op) {
 				continue
 			}
 			name := strings.TrimPrefix(tag, structs.TaggedAddressVirtualIP+":")
-			ent := "vip:|" + name
+			// an entity of its own (per gateway and service): excusing a proxy's advertisement of the same service
+			// (vip-freed-under-instance-name) must not swallow what the gateway instance advertises, and vice versa
+			ent := "gwvip:" + sn.ServiceName + "|" + name
 			got := cur.vipOf["|"+name]
 			adv := sn.ServiceTaggedAddresses[tag].Address
 			if got == adv {
+				delete(m.excused, ent) // consistent again (tags rebuilt from a rewritten entry): later divergence is news
 				continue
 			}
 			ge := cur.gwEntries[string(structs.ServiceKindTerminatingGateway)+"|"+sn.ServiceName]
@@ -795,7 +847,12 @@ func (m *verifC07Machine) checkVIPs(prev, cur *verifC07View, op *vs.Op) {
 			case m.excused["gs:"+sn.ServiceName+"|"+name+"|0"]:
 				continue // consequence of the explicit row having been overwritten and removed (reported there)
 			case got == "":
+				// the entry lists the service, the gateway-services row is what protects the assignment
+				// (freeServiceVirtualIP): it was released although a terminating gateway still links the service
 				key = "C07/R4/gateway-advertises-unassigned-ip/after=" + after
+				if _, linked := cur.gwIDs[sn.ServiceName+"|"+name+"|0"]; linked {
+					key = "C07/R4/gateway-vip-tag-names-unassigned-ip/linked-by-terminating-gateway/after=" + after
+				}
 			}
 			m.report(key, ent, "after %s: gateway instance %s/%s advertises %s=%s, service %q is assigned %q (listed by the gateway's entry: %v)", op.Desc, sn.Node, sn.ServiceID, tag, adv, name, got, listed)
 		}
@@ -825,6 +882,14 @@ func TestVerifC07Catalog(t *testing.T) {
 		c := rec.NewCase()
 		n := rapid.IntRange(8, maxSteps).Draw(t, "steps")
 		flags := rapid.IntRange(0, 9).Draw(t, "flags") // 0: none, 1: VIPs only, else both
+		cfg := verifC07Cfg
+		if rapid.IntRange(0, 9).Draw(t, "mode") < 2 {
+			// every fifth case dwells on one service linked by two gateways (the shape needs 6-7 aimed ops in a row)
+			focused := *verifC07Cfg
+			focused.MultiGwW = 60
+			cfg = &focused
+			c.Label("mode=multi-gateway")
+		}
 		verifC07Run(t, c, func(m *verifC07Machine, i int) *vs.Op {
 			switch {
 			case i == 0 && flags >= 1:
@@ -836,7 +901,7 @@ func TestVerifC07Catalog(t *testing.T) {
 			case i >= n+2:
 				return nil
 			}
-			return m.w.C07DrawOp(t, verifC07Cfg)
+			return m.w.C07DrawOp(t, cfg)
 		})
 		c.Done()
 	})
